@@ -148,5 +148,6 @@ pub fn run(a: &Args) {
     } } } }
     st.rule = "real Builder: every setter sequence of bounded length over a call alphabet + random long sequences, ISI fields compared with an independent last-set-or-default specification, isi() under catch_unwind; real connect_blocking / connect_async against loopback TCP / UDP peers (tcp, udp with and without local address, both modes): the peer must receive exactly the ISI frame and nothing else".into();
     st.sample("builder flag:0:1 udp:none reqi:7 -> C ok:0b0107000000200009...".into());
+    { let c1 = crate::conv::sync_conversations("C18", a, &mut rng, "ka", &mut st, &mut out); st.distinct_nontrivial += c1.distinct.len() as u64; }
     out.finish(&st);
 }
